@@ -381,7 +381,8 @@ PROPS = {
             "name_accept_iff", "chronobox_accept_iff", "seq2_accept_iff", "name_injective", "name_denotes_one",
             "board_tables_distinct", "bankName_total", "wire_bijection", "pad_bijection", "sim_eq_5000",
             "before_first_map_errors", "no_gap", "no_shadowed_arm", "wire_in_column", "padColumnToWires_fibre"]]
-            + ["AlphaG.RunHistory." + t + sfx for t in RUN_HISTORY for sfx in ("_history", "_simulation")],
+            + ["AlphaG.RunHistory." + t + sfx for t in RUN_HISTORY for sfx in ("_history", "_simulation")]
+            + ["AlphaG.RunHistory.pwb_swaps_10418"],
         harness=[("c08", ["dev", "release"])],
         level_text="Lean theorems over tables and `match run_number` arms regenerated from the source text on every run: for "
                    "every String (any length, any Unicode) the bank-name parsers accept exactly the 458 documented names "
@@ -390,7 +391,11 @@ PROPS = {
                    "wire map is a bijection of 8 boards x 32 channels onto 256 wires and the pad map a bijection of installed "
                    "boards x 4 chips x 72 channels onto 32 x 576 pads (product of small kernel-checked bijections); the "
                    "simulation run maps like run 5000; runs before the first map give an error, no gap after it, no shadowed "
-                   "arm; wire-to-pad-column association matches the geometry in exact rational arithmetic.",
+                   "arm; wire-to-pad-column association matches the geometry in exact rational arithmetic. The nine run-number "
+                   "dispatches (three maps, six calibrations) select, for every run up to the documentation horizon 11192 and "
+                   "for the simulation, exactly what the hand-written record of the documented run history prescribes "
+                   "(Props/RunHistory: *_history, *_simulation), and the PadWing layout from run 10418 is the earlier one with "
+                   "exactly the eight board replacements listed in detector/CHANGELOG.md (pwb_swaps_10418).",
         level_note="Trusted: the translator's regex extraction of Rust consts and match arms (a failure to locate a table is an "
                    "error; cross-checked by querying the real lookup functions over their whole domain in the harness: all "
                    "documented names, 150 k sampled / 4.1 M exhaustive 4-char strings, runs at every threshold +-2 / 0..=20000 "
@@ -486,6 +491,7 @@ PROPS = {
     "C10": dict(
         lean_modules=["AlphaG.Props.C10", "AlphaG.Props.RunHistory"],
         required_theorems=["AlphaG.RunHistory." + t + sfx for t in RUN_HISTORY for sfx in ("_history", "_simulation")]
+            + ["AlphaG.RunHistory.pwb_swaps_10418"]
             + ["AlphaG.C10." + t for t in [
             "assembly_spec", "assembly_accepts_iff", "assembly_ignores", "assembly_rejects_unknown_name",
             "assembly_rejects_malformed_payload", "assembly_rejects_malformed_pwb_packet", "assembly_rejects_bv_channel",
@@ -503,6 +509,8 @@ PROPS = {
                    "name, name/payload mismatch, BV channel, duplicates, missing TRG, malformed payloads, missing map or "
                    "calibration, packet identity); B-banks, TRBA and MCVX are ignored. Composes the decoder models of C02-C06 "
                    "and the maps of C08.",
+        level_text_extra="Which calibration and which map a run number selects is proved equal to the documented run history "
+                         "up to the horizon (Props/RunHistory).",
         level_note="Calibration values (baseline i16, gain f64 bits) are dumped from the built code through the hooks and "
                    "cross-checked by the translator against an independent parse of the JSON/RON data files (baselines equal, "
                    "gains within 1 ulp); serde_json/ron parsing is thereby trusted only up to that cross-check. HashMap "
